@@ -5,6 +5,7 @@
 package pppoe
 
 import (
+	"bytes"
 	"context"
 	"encoding/json"
 	"fmt"
@@ -553,6 +554,15 @@ func (c *Component) handleSession(pkt *dataplane.ParsedPacket) error {
 		return nil
 	}
 
+	// RFC 2516 section 5.5: a session is identified by the session-id together
+	// with the peer's Ethernet address. Never let another host (or the same MAC
+	// on other VLAN tags) drive this session's PPP state machines.
+	if !sess.ownedBy(pkt) {
+		c.logger.Warn("PPPoE session packet from a host that does not own the session",
+			"session_id", sid, "mac", pkt.MAC.String(), "svlan", pkt.OuterVLAN, "cvlan", pkt.InnerVLAN)
+		return nil
+	}
+
 	sess.LastSeen = time.Now()
 
 	if pkt.PPP == nil {
@@ -673,13 +683,19 @@ func (c *Component) handlePADT(pkt *dataplane.ParsedPacket) error {
 
 	c.sessionMu.Lock()
 	sess, exists := c.sidIndex[sid]
-	if exists {
+	owned := exists && sess.ownedBy(pkt)
+	if owned {
 		c.removeFromIndexes(sess)
 	}
 	c.sessionMu.Unlock()
 
 	if !exists {
 		c.logger.Debug("Received PADT for unknown session", "pppoe_session_id", sid)
+		return nil
+	}
+	if !owned {
+		c.logger.Warn("Ignoring PADT from a host that does not own the session",
+			"pppoe_session_id", sid, "mac", pkt.MAC.String(), "svlan", pkt.OuterVLAN, "cvlan", pkt.InnerVLAN)
 		return nil
 	}
 
@@ -1059,6 +1075,12 @@ func (c *Component) allocateSessionID() uint16 {
 			return 0
 		}
 	}
+}
+
+// ownedBy reports whether pkt was sent by the host this session belongs to:
+// same source MAC and same VLAN tags as the PADR that created it.
+func (s *SessionState) ownedBy(pkt *dataplane.ParsedPacket) bool {
+	return bytes.Equal(s.MAC, pkt.MAC) && s.OuterVLAN == pkt.OuterVLAN && s.InnerVLAN == pkt.InnerVLAN
 }
 
 func (c *Component) sessionKey(mac net.HardwareAddr, svlan, cvlan uint16) string {
